@@ -38,7 +38,8 @@ Fixpoint layout_r (ind : nat) (indented : bool) (cs : list rcmd) : option (list 
       | RTok k (Some t) => cons (PcTok k t) (layout_r ind indented r)
       | RTok k None => None
       | RSp => cons (PcWs [32%N]) (layout_r ind indented r)
-      | RDoc l => cons (PcDoc l) (layout_r ind indented r)
+      | RDoc l => if indented then cons (PcDoc l) (layout_r ind false r)
+                  else cons (PcWs (indent_text ind)) (cons (PcDoc l) (layout_r ind false r))
       | RIndent => if indented then layout_r ind indented r
                    else cons (PcWs (indent_text ind)) (layout_r ind true r)
       | RNewline => cons (PcWs [c_nl]) (layout_r ind false r)
@@ -65,7 +66,8 @@ Proof.
     + unfold slice_or_nil. destruct (slice s sp); [|discriminate].
       destruct (layout s ind b cs) eqn:E; inversion H; subst. cbn [patoks]. f_equal. eapply IH; eauto.
     + destruct (layout s ind b cs) eqn:E; inversion H; subst. cbn [patoks]. eapply IH; eauto.
-    + destruct (layout s ind b cs) eqn:E; inversion H; subst. cbn [patoks]. eapply IH; eauto.
+    + destruct (layout s ind false cs) eqn:E; [|destruct b; discriminate].
+      destruct b; inversion H; subst; cbn [patoks]; eapply IH; eauto.
     + destruct b; [eapply IH; eauto|].
       destruct (layout s ind true cs) eqn:E; inversion H; subst. cbn [patoks]. eapply IH; eauto.
     + destruct (layout s ind false cs) eqn:E; inversion H; subst. cbn [patoks]. eapply IH; eauto.
@@ -482,17 +484,17 @@ Definition printed_lines (ds : list doc) : list str := flat_map (fun dc => doc_l
 Lemma printed_lines_norm ds : printed_lines ds = doc_norm ds.
 Proof. unfold printed_lines, doc_norm. apply flat_map_ext. intros a. apply doc_lines_repaired. Qed.
 
-Lemma p_docs_flat ds : p_docs fx ds = flat_map (fun l => [CIndent; CDoc l; CNewline]) (printed_lines ds).
+Lemma p_docs_flat ds : p_docs fx ds = map CDoc (printed_lines ds).
 Proof.
   unfold p_docs, printed_lines. induction ds as [|a ds IH]; [reflexivity|].
-  cbn [flat_map]. now rewrite flat_map_app, IH.
+  cbn [flat_map]. now rewrite map_app, IH.
 Qed.
 
 Lemma catoks_docs ds docs rest :
   catoks src docs (p_docs fx ds ++ rest) = catoks src (docs ++ map doc_of_line (printed_lines ds)) rest.
 Proof.
   rewrite p_docs_flat. generalize (printed_lines ds) as L. intros L. revert docs.
-  induction L as [|l L IH]; intros docs; cbn [flat_map map app catoks]; [now rewrite app_nil_r|].
+  induction L as [|l L IH]; intros docs; cbn [map app catoks]; [now rewrite app_nil_r|].
   rewrite IH, <- app_assoc. reflexivity.
 Qed.
 
@@ -1343,7 +1345,10 @@ Proof.
     + cbn [tsp ttext]. apply slice_at.
     + rewrite <- byte_len_app. rewrite app_assoc. apply IH.
   - rewrite <- byte_len_app. rewrite app_assoc. apply IH.
-  - rewrite <- byte_len_app. rewrite app_assoc. apply IH.
+  - replace (byte_len pre + byte_len (doc_prefix ++ l) + 1)%N with (byte_len (pre ++ doc_prefix ++ l ++ [c_nl])).
+    + rewrite <- !app_assoc. rewrite (app_assoc pre), (app_assoc (pre ++ doc_prefix)), (app_assoc ((pre ++ doc_prefix) ++ l)).
+      rewrite <- (app_assoc pre doc_prefix), <- (app_assoc pre (doc_prefix ++ l)), <- (app_assoc doc_prefix l). apply IH.
+    + rewrite !byte_len_app. cbn [byte_len]. change (utf8_len c_nl) with 1%N. lia.
 Qed.
 
 Lemma Forall2_of_map {A B} (f : A -> B) (P : A -> Prop) l l' :
